@@ -43,6 +43,11 @@ fn nested(src: &mut Src, st: &mut Stats, _env: &Env) -> CaseResult {
     let want = refeval::eval(&tree, &doc, &mut cx);
     let c = compare("nested", &tree, &text, &doc, &dt, st, true)?;
     record_kinds(&tree, st);
+    // the same calls through an expression object assembled by hand from the public Ast
+    if src.chance(50) {
+        crate::imp::ast_route_agrees("nested", &tree, &text, &dt, src)?;
+        st.class("hand-built-ast-route");
+    }
     if want.is_ok() {
         fn_classes(&cx, st);
     }
